@@ -17,9 +17,10 @@ def python_evaluate(s: str) -> int:
         val = eval(s)
     except SyntaxError as ex:
         raise NotAnIntegerException(s, ex.msg)
-    except Exception as ex:
+    except (Exception, SystemExit) as ex:
         # Any other error from evaluating the expression
         # (ValueError, TypeError, NameError, ZeroDivisionError, OverflowError, IndexError, ...)
+        # SystemExit: "exit(0)" must not end the program (silently, with exit code 0).
         raise NotAnIntegerException(s, str(ex))
 
     if isinstance(val, int):
